@@ -350,10 +350,37 @@ static void bs_case(uint64_t idx, void *ctx)
     mc_nontrivial();
     mc_outcome((uint64_t) c);
 }
+/* ---- the in-place helpers on a string of 2^31 + 7 characters (plain optimised build: the whole string is checked afterwards, byte for byte) */
+static const char *HG[4] = { "spiftool_upcase_str", "spiftool_downcase_str", "strrev", "spiftool_chomp" };
+static void hg_desc(uint64_t idx, void *ctx, char *b, size_t n) { (void) ctx; snprintf(b, n, "%s on a string of 2^31 + 7 characters (aB. repeated%s)", HG[idx], idx == 3 ? ", blanks at both ends" : ""); }
+static char hg_pat(size_t i) { return i % 3 == 0 ? 'a' : (i % 3 == 1 ? 'B' : '.'); }
+static void hg_case(uint64_t idx, void *ctx)
+{
+    const size_t n = ((size_t) 1 << 31) + 7; (void) ctx; const char *shape = "string of 2^31 characters or more"; mc_set_shape(shape);
+    char *s = malloc(n + 1); if (!s) return;
+    for (size_t i = 0; i < n; i++) s[i] = hg_pat(i);
+    s[n] = 0;
+    if (idx == 3) { s[0] = ' '; s[1] = '\t'; s[n - 1] = '\n'; s[n - 2] = ' '; }
+    char *r = idx == 0 ? (char *) spiftool_upcase_str((spif_charptr_t) s) : (idx == 1 ? (char *) spiftool_downcase_str((spif_charptr_t) s) : (idx == 2 ? strrev(s) : (char *) spiftool_chomp((spif_charptr_t) s)));
+    if (!r) FAIL(HG[idx], "model:return", shape, "returned NULL");
+    else if (idx == 3) {
+        size_t rl = strlen(r);
+        if (r != s || rl != n - 4 || r[0] != hg_pat(2) || r[rl - 1] != hg_pat(n - 3) || r[rl / 2] != hg_pat(rl / 2 + 2)) FAIL(HG[idx], "model:content", shape, "chomp leaves %zu characters starting with '%c', expected %zu characters starting with '%c' (two blanks stripped at each end, the text moved to the front)", rl, r[0], n - 4, hg_pat(2));
+    } else {
+        if (r != s) FAIL(HG[idx], "model:return", shape, "did not return its argument");
+        size_t bad = n; for (size_t i = 0; i < n; i++) { char w = idx == 0 ? (char) toupper((unsigned char) hg_pat(i)) : (idx == 1 ? (char) tolower((unsigned char) hg_pat(i)) : hg_pat(n - 1 - i)); if (s[i] != w) { bad = i; break; } }
+        if (bad != n) FAIL(HG[idx], "model:content", shape, "character %zu of %zu is '%c' after the call, the reference transformation gives another one", bad, n, s[bad]);
+        if (s[n]) FAIL(HG[idx], "invariant:byte-after-terminator-touched", shape, "the terminator changed");
+    }
+    free(s);
+    mc_nontrivial();
+    mc_outcome(idx);
+}
 int main(int argc, char **argv)
 {
     mc_init("C13", argc, argv);
     libast_debug_level = (unsigned) mc_dlevel();        /* --dlevel=N: the whole run at runtime debug level N (default 0) */
+    if (mc_arg("only", NULL) && !strcmp(mc_arg("only", ""), "huge")) { mc_e2_level("huge_string", 1, 4, hg_case, hg_desc, NULL); return mc_finish(); }
     L = (int) mc_arg_int("L", mc_thorough() ? 7 : 4);
     if (L > 9) L = 9;
     g_src_utf8 = !strcmp(mc_arg("src", ""), "utf8");
